@@ -133,6 +133,27 @@ def check(run, ctx):
     # ------------------------------------------------------------- I5
     I5 = run.rule("I5", "rule-name matching compares case-folded operands only; every alias target is an emitted rule id", floor=4)
     RM = "src.linter_config.rule_matcher"
+    # rule_matches says "no" only after the alias table was consulted: every non-True exit passes through _matches_via_alias
+    rm_f = repo.func(f"{RM}.rule_matches")
+    rm_paths = func_paths(rm_f)
+    if rm_paths is None:
+        run.undecided(I5, "rule_matches", "too many paths")
+    else:
+        cut = None
+        for p_ in rm_paths:
+            last = p_[-1]
+            if last[0] != "return":
+                continue
+            rv = last[1].value if isinstance(last[1], ast.Return) else None
+            if isinstance(rv, ast.Constant) and rv.value is True:
+                continue
+            consulted = any(isinstance(x, ast.Call) and call_name(x) == "_matches_via_alias" for ev_ in p_ for x in (ast.walk(ev_[1]) if isinstance(ev_[1], ast.AST) else []))
+            if not consulted:
+                cut = last[1]
+        if cut is None:
+            run.ok(I5, "rule_matches", "every exit other than `return True` has consulted the alias table")
+        else:
+            run.finding(I5, "rule_matches", f"alias-bypass:{norm(cut)[:50]}", f"rule_matches can answer `{norm(cut)[:60]}` without consulting _matches_via_alias: a directive written with the deprecated linter name in that form (e.g. the wildcard `print-statements.*`) no longer silences the renamed rule", f"{rm_f.module.rel}:{getattr(cut, 'lineno', rm_f.node.lineno)}")
     for fn in ("_matches_pattern_directly", "_matches_via_alias", "_pattern_matches_deprecated_id"):
         f = repo.func(f"{RM}.{fn}")
         params = {a.arg for a in f.node.args.args}
